@@ -78,23 +78,8 @@ func c12Judge(pats []string, m pattern.Mode, s string) (class, detail string, no
 	}
 	want, ok := refMatch(es, m&pattern.Prefix != 0, m&pattern.Largest == 0 && m&pattern.Smallest != 0, []rune(s))
 	nontrivial = ok && want != "" && want != s
-	if len(pats) > 1 && ok && err == nil {
-		// The statement fixes the extent only for one pattern; for a list it
-		// demands "matches exactly when one of them does".  Accept any
-		// prefix/suffix that one of the patterns matches as a whole.
-		// It must still be the shortest / longest portion for (at least) one pattern of the list taken alone: the
-		// mode applies to every alternative, whichever of them is preferred.
-		var extents []string
-		for _, e := range es {
-			if x, ok1 := refMatch([][]pelem{e}, m&pattern.Prefix != 0, m&pattern.Largest == 0 && m&pattern.Smallest != 0, []rune(s)); ok1 {
-				if x == got {
-					return "", "", nontrivial
-				}
-				extents = append(extents, x)
-			}
-		}
-		return "list-mismatch", fmt.Sprintf("Match(%q, %d, %q) = %q; taken alone the patterns of the list give %q: the result is not the shortest/longest portion for any of them", pats, m, s, got, extents), true
-	}
+	// (for a list of patterns "the pattern matches" means "one of them does": the extent is the shortest / longest
+	// over all of them — refMatch already takes the list)
 	if ok != (err == nil) || ok && want != got {
 		cl := "mismatch"
 		if status == patGray {
@@ -311,6 +296,10 @@ func c12Run(w *W) {
 			for _, s := range subj3 {
 				for _, m := range c12Modes {
 					c12One(w, []string{p1, p2}, m, s)
+					// and, in the same process, the ONE pattern "p1|p2" ('|' is an ordinary character): nothing a call
+					// leaves behind (a cache keyed by the joined text, say) may leak into another call
+					c12One(w, []string{p1 + "|" + p2}, m, s)
+					c12One(w, []string{p1 + "|" + p2}, m, s+"|"+s)
 				}
 			}
 		}
